@@ -20,11 +20,13 @@ ASSUMPTIONS = ['virtual time; liveness as bounded safety', 'one bus; handlers do
 dur = st.sampled_from([0, 0.01, 0.05, 0.09, 0.1, 0.11, 0.2, 0.3])
 op = st.one_of(
     st.tuples(st.just('adv'), dur).map(list),
-    st.tuples(st.just('burst'), st.integers(1, 3), dur, st.integers(0, 3), st.booleans(), st.booleans(), st.sampled_from([None, None, None, 0.07, 0.15])).map(list),
-    st.tuples(st.just('burst'), st.integers(1, 3), dur, st.integers(0, 3), st.booleans(), st.booleans(), st.sampled_from([None, None, None, 0.07, 0.15])).map(list),
+    st.tuples(st.just('burst'), st.integers(1, 3), dur, st.integers(0, 3), st.booleans(), st.booleans(), st.sampled_from([None, None, None, 0.07, 0.13, 0.15])).map(list),
+    st.tuples(st.just('burst'), st.integers(1, 3), dur, st.integers(0, 3), st.booleans(), st.booleans(), st.sampled_from([None, None, None, 0.07, 0.13, 0.15])).map(list),
     st.tuples(st.just('idle'), st.sampled_from([None, None, None, 0.05, 0.5])).map(list),
     st.tuples(st.just('idle'), st.none()).map(list),
     st.tuples(st.just('burst'), st.sampled_from([30, 51, 101]), dur, st.sampled_from([0, 60]), st.booleans(), st.just(False), st.none()).map(list),
+    # a handler that awaits its children and is cut off by its event timeout while they are processed inline
+    st.sampled_from([(0.05, 0.07), (0.11, 0.15), (0.09, 0.13)]).flatmap(lambda dt: st.tuples(st.just('burst'), st.integers(1, 2), st.just(dt[0]), st.integers(1, 2), st.just(True), st.booleans(), st.just(dt[1])).map(list)),
     st.tuples(st.just('burstnh'), st.sampled_from([1, 3, 51, 101])).map(list),
     st.tuples(st.just('retry'), st.sampled_from([1, 3, 60])).map(list),
 )
